@@ -73,7 +73,12 @@ def multiplier_once(rep: Report, prog: Program) -> None:
     for c in calls:
         a = [norm(x) for x in c.args]
         conn = a[2] if len(a) > 2 else None
-        ok = len(a) >= 4 and a[1] == fp[1] and a[3] == 'ext'
+        # the externals argument: the (renamed-apart) external list = first result of rename_duplicate_nodes, or the parameter itself
+        ext_names = {fp[3]} if len(fp) > 3 else set()
+        for n in own_nodes(f.node):
+            if isinstance(n, ast.Assign) and isinstance(n.value, ast.Call) and callee_last(n.value) == 'rename_duplicate_nodes' and isinstance(n.targets[0], ast.Tuple):
+                ext_names.add(norm(n.targets[0].elts[0]))
+        ok = len(a) >= 4 and a[1] == fp[1] and a[3] in ext_names
         rep.ob(rule, f.fq(), norm(c)[:90], f.loc(c), ok, f"node set argument `{a[1] if len(a) > 1 else None}` (parameter `{fp[1]}` expected), externals `{a[3] if len(a) > 3 else None}`")
         # connected = union of edge.nodes over *all* edges, collected before any early return in the loop body
         if conn:
